@@ -633,6 +633,14 @@ func (sc *segmentController[T, O]) selectSegments(timeRange timestamp.TimeRange,
 			if reopenClosed {
 				// Real read: reopen if closed and mark as accessed.
 				if err = s.incRef(ctx); err != nil {
+					if errors.Is(err, ErrSegmentClosed) {
+						// Deleted but not yet dropped from sc.lst: delete() and
+						// removeSeg() are two steps, and a reader can fall in between.
+						// The segment is gone for good, so the reader's view is simply
+						// the one without it -- the same it gets a moment later.
+						err = nil
+						continue
+					}
 					// Release the segments already pinned in earlier iterations so a
 					// mid-loop incRef failure does not leak refs (which would block
 					// idle-close and retention-delete for them indefinitely).
